@@ -764,8 +764,12 @@ fn build_htlcs(cfg: &Cfg, payments: &[PaymentSpec], plans: &[SetPlan], prof: &Pr
                     _ => {
                         if pay.invoice_amount.is_none() {
                             h.meta = Meta::WithAmount(Hx(tu64_min(pay.tlv_amount.saturating_add(1 + arg % 5))))
-                        } else {
+                        } else if arg % 8 < 4 {
                             h.meta = Meta::AltInvoice { amount: None }
+                        } else {
+                            // fixed-amount invoice with a well-formed but disagreeing amount field: not a trampoline request
+                            let a = pay.invoice_amount.unwrap_or(1);
+                            h.meta = Meta::WithAmount(Hx(tu64_min(if arg % 2 == 0 { a / 2 } else { a.saturating_add(1) })))
                         }
                     }
                 }
@@ -828,7 +832,12 @@ pub fn scenario_strategy(prof: Profile) -> BoxedStrategy<Scenario> {
                 Just(vec![]).boxed()
             };
             let rf = if prof.read_faults {
-                proptest::collection::vec((0u8..10, proptest::sample::select(&[-1i32, 200, 400, -32602][..])), 0..=2).boxed()
+                // single read faults, pairs, and bursts of 3-4 consecutive failing reads
+                prop_oneof![
+                    4 => proptest::collection::vec((0u8..10, proptest::sample::select(&[-1i32, 200, 400, -32602][..])), 0..=2),
+                    2 => (0u8..10, 3u8..=4, proptest::sample::select(&[-1i32, 200, 400, -32602][..])).prop_map(|(k, n, c)| (0..n).map(|i| (k + i, c)).collect::<Vec<_>>()),
+                ]
+                .boxed()
             } else {
                 Just(vec![]).boxed()
             };
